@@ -14,3 +14,9 @@ META["C06"] = {
     "note": "Trusts the ~150-line reference model (written from docs/config.proto); tolerates rejection of individually unsatisfiable entries; goes through the YAML parser.",
     "technique": "property-based testing (rapid) against a reference model + bounded-exhaustive enumeration + metamorphic relations",
 }
+
+META["C03"] = {
+    "text": "Metamorphic testing of the result assertion: the actual result is the expected one under one labelled deviation (must fail and name the class) composed with labelled lenient rewrites (must keep the verdict), over generated expectations and every distinct expectation of the expanded embedded corpus; the corpus x every applicable deviation x every position is enumerated completely. Exploration of an unbounded input space by seeded generation with shrinking.",
+    "note": "Trusts the deviation/leniency catalogue written from the statement and docs; unique header names; no detail reordering; first-payload-only request-info comparison as documented in the code.",
+    "technique": "property-based metamorphic testing (rapid) + enumeration of corpus expectations x deviations",
+}
